@@ -488,7 +488,7 @@ pub fn run(run: &Run) {
     let steps = AtomicU64::new(0);
     // ---- scenario scripts ----
     let item_menu: Vec<Item> = vec![
-        Item::Meta(7), Item::Meta(8), Item::Meta(0), Item::Audio { ts: 0, len: 0 }, Item::Audio { ts: 0xFF_FFFF, len: 1 }, Item::Video { ts: 0xFFFF_FFFF, len: 5 },
+        Item::Meta(7), Item::Meta(8), Item::Meta(0), Item::Meta(16), Item::Meta(48), Item::Audio { ts: 0, len: 0 }, Item::Audio { ts: 0xFF_FFFF, len: 1 }, Item::Video { ts: 0xFFFF_FFFF, len: 5 },
         Item::Video { ts: 1, len: 129 }, Item::Audio { ts: 0x100_0000, len: 4097 },
     ];
     let mut scripts: Vec<Vec<Item>> = Vec::new();
